@@ -124,6 +124,7 @@ func checkC17(c *Ctx, r *Report) {
 	r.rule("C17.R8", "the named constants of an Enumerated AVP's Go type carry the codes the dictionary gives the items of the same name (the peer - and the switch statements on both sides - mean the dictionary's value)", 4)
 	r.rule("C17.R9", "no numeric member is dropped from the message when it holds 0: go-diameter's omitempty (explicit, or implied by a tag that carries other keys) only on members whose empty value means absent", 0)
 	r.rule("C17.R10", "what goes on the wire is what Marshal made of the struct: no code of the module edits the AVP list of a message or of a grouped AVP", 1)
+	r.rule("C17.R11", "a decoded message is handed on as decoded: the receiving function assigns no member of the struct Unmarshal filled", 4)
 	r.rule("C17.R6", "AVP code constants of ccs_diameter/code that name a dictionary AVP carry that AVP's code", 20)
 
 	dictPkg := c.pkg("ccs_diameter/dict")
@@ -372,6 +373,7 @@ func checkC17(c *Ctx, r *Report) {
 	c17Commands(c, r, ds, appID)
 	c17ErrDiscipline(c, r)
 	c17FreshDecodeTarget(c, r)
+	c17DeliveredAsDecoded(c, r, "C17.R11")
 	// R10: who may write diam.Message.AVP / GroupedAVP.AVP
 	{
 		n := 0
@@ -636,20 +638,33 @@ func c17ErrDiscipline(c *Ctx, r *Report) {
 // that no earlier Unmarshal on the same path has filled - when the call sits in a loop the
 // object has to be made inside that loop.
 func c17FreshDecodeTarget(c *Ctx, r *Report) {
+	freshDecodeTargets(c, r, "C17.R7", func(f *ssa.Function, call *ssa.Call) int {
+		if isFunc(calleeObj(&call.Call), diamPath, "Message.Unmarshal") {
+			return len(call.Call.Args) - 1
+		}
+		return -1
+	}, "the message", "members whose AVPs are absent keep whatever the object held before", "an optional group (Final-Unit-Indication, Cost-Information ...) of the earlier message is delivered as part of this one")
+}
+
+// freshDecodeTargets: the shared form of the rule - decoders that only set the members present
+// in the input (go-diameter Unmarshal, encoding/json) need an empty target.
+func freshDecodeTargets(c *Ctx, r *Report, rule string, targetArg func(f *ssa.Function, call *ssa.Call) int, what, whyStale, consequence string) int {
+	total := 0
 	for _, f := range c.ModFuncs {
 		var calls []*ssa.Call
 		eachInstr(f, func(_ *ssa.BasicBlock, _ int, ins ssa.Instruction) {
-			if call, ok := ins.(*ssa.Call); ok && isFunc(calleeObj(&call.Call), diamPath, "Message.Unmarshal") {
+			if call, ok := ins.(*ssa.Call); ok && calleeObj(&call.Call) != nil && targetArg(f, call) >= 0 {
 				calls = append(calls, call)
 			}
 		})
 		for _, call := range calls {
+			total++
 			obj := calleeObj(&call.Call)
 			key := fnKey(f) + "|" + obj.Name() + "#" + ordinalOf(f, call, obj) + " target"
 			args := call.Call.Args
 			var target ssa.Value
-			if len(args) > 0 {
-				target = args[len(args)-1]
+			if i := targetArg(f, call); i < len(args) {
+				target = args[i]
 			}
 			for {
 				if mi, ok := target.(*ssa.MakeInterface); ok {
@@ -673,7 +688,7 @@ func c17FreshDecodeTarget(c *Ctx, r *Report) {
 			}
 			al, ok := target.(*ssa.Alloc)
 			if !ok {
-				r.viol("C17.R7", key, posOf(c, call), "the message is decoded into "+describe(target)+", not into a local object made for this decode: members whose AVPs are absent keep whatever the object held before")
+				r.viol(rule, key, posOf(c, call), what+" is decoded into "+describe(target)+", not into a local object made for this decode: "+whyStale)
 				continue
 			}
 			bad := ""
@@ -705,7 +720,7 @@ func c17FreshDecodeTarget(c *Ctx, r *Report) {
 				if other == call || len(other.Call.Args) == 0 {
 					continue
 				}
-				ot := other.Call.Args[len(other.Call.Args)-1]
+				ot := other.Call.Args[targetArg(f, other)]
 				if mi, ok := ot.(*ssa.MakeInterface); ok {
 					ot = mi.X
 				}
@@ -716,9 +731,10 @@ func c17FreshDecodeTarget(c *Ctx, r *Report) {
 					bad = "the same object was filled by the Unmarshal at " + posOf(c, other) + " on a path to this one"
 				}
 			}
-			r.check(bad == "", "C17.R7", key, posOf(c, call), "decoded into a new local object", "the message is not decoded into an empty struct: "+bad+" - an optional group (Final-Unit-Indication, Cost-Information ...) of the earlier message is delivered as part of this one")
+			r.check(bad == "", rule, key, posOf(c, call), "decoded into a new local object", what+" is not decoded into an empty struct: "+bad+" - "+consequence)
 		}
 	}
+	return total
 }
 
 // errTested: the value (or a copy through a phi/store to a local) is an
